@@ -63,9 +63,11 @@ Pairs == {pq \in FixedNames \X FixedNames : pq[1] # pq[2] /\ CtorOf(pq[1]) = Cto
 PairAccept(pq, s1, s2) == s1 = Fixed[pq[1]] /\ s2 = Fixed[pq[2]]
 
 \* events: values x kind of event; a 0-dimensional array is a scalar, not an iterable
-EventVals == {[k |-> k, n |-> n] : k \in {"list", "tuple", "ndarray_f4", "ndarray_f8"}, n \in 0..3}
+\* ("..z": the values are 1, 0, 0, ... - a check must count the values, not look at them)
+IterKinds == {"list", "tuple", "ndarray_f4", "ndarray_f8", "listz", "ndarray_f4z", "ndarray_i4z"}
+EventVals == {[k |-> k, n |-> n] : k \in IterKinds, n \in 0..3}
              \cup {[k |-> k, n |-> 0] : k \in {"none", "int", "float", "ndarray0_f4", "ndarray0_f8", "npscalar"}}
-EventAccept(v, single) == v.k \in {"list", "tuple", "ndarray_f4", "ndarray_f8"} /\ (single => v.n <= 1)
+EventAccept(v, single) == v.k \in IterKinds /\ (single => v.n <= 1)
 EventRefuse(v, single) == v.k \in {"none", "int", "float", "ndarray0_f4", "ndarray0_f8", "npscalar"} \/ (single /\ v.n > 1)
 
 VARIABLES q
